@@ -98,7 +98,12 @@ def rule_tc_flag(cx, tier):
                 continue
             r.instances += 1
             r.nontrivial += 1
-            if c.short in ALLOWED_UNDER_FLAG or c.is_("Into::into", "From::from"):
+            # a pure Option combinator whose closure only makes allowed calls (`span.map(|i| ctx.node_with_span(i))`)
+            pure_comb = c.is_("Option::map", "Option::and_then", "Option::as_ref", "Option::copied", "Option::cloned",
+                              "Option::filter", "Option::is_some_and") and \
+                all(all(c3.short in ALLOWED_UNDER_FLAG or c3.is_("Into::into", "From::from")
+                        for c3 in cx.F.fns[g].calls()) for g in (c.cl or []) if g in cx.F.fns)
+            if c.short in ALLOWED_UNDER_FLAG or c.is_("Into::into", "From::from") or pure_comb:
                 if c.short == COMP + "push_op" and len(c.args) > 1:
                     ag = operand_agg(du, c.args[1])
                     l = op_local(c.args[1])
